@@ -158,6 +158,14 @@ func c01Edits() []c01Edit {
 			}
 			return ""
 		}},
+		{"Extensions-append-second-padding", func(u *tls.UConn) error {
+			// an edit the marshaller must refuse (two padding extensions): the handshake has to fail
+			// with that error and send nothing — in particular not the hello built before the edit
+			u.Extensions = append(append([]tls.TLSExtension{}, u.Extensions...), &tls.UtlsPaddingExtension{GetPaddingLen: tls.BoringPaddingStyle}, &tls.UtlsPaddingExtension{WillPad: true, PaddingLen: 7})
+			return nil
+		}, func(h *wire.Hello) string {
+			return "a ClientHello went out although the edited extension list cannot be marshalled"
+		}},
 		{"RemoveSNIExtension", func(u *tls.UConn) error { return u.RemoveSNIExtension() }, func(h *wire.Hello) string {
 			if h.Find(0) != nil {
 				return "RemoveSNIExtension returned nil, yet a server_name extension is on the wire"
@@ -396,7 +404,7 @@ func c01Scenarios(thorough bool) []*explore.Scenario {
 func init() {
 	register(&Prop{ID: "C01", Level: "model_checking", Variant: "A", Scenarios: c01Scenarios,
 		Run: func(c *explore.Check, thorough bool) {
-			c.Rule = "every non-Golang ID, randomized seeds and custom specs (+ fingerprinted copies in thorough) x every sequence of <=2 (3) documented mutators (SetClientRandom, SetSNI, CipherSuites drop/append, SessionId pattern/empty, Extensions append/remove/edit (ALPN, server_name and signature_algorithms objects edited directly), RemoveSNIExtension, a second BuildHandshakeState) applied between BuildHandshakeState and the start of the handshake {Handshake(), first Read, first Write} x server {plain, HRR-forcing} x {fresh connection, PSK parrot resuming a cached TLS 1.3 session} x (unedited hellos) {no ECH config, Config.EncryptedClientHelloConfigList set whether or not the spec has an ECH extension}: (1) first ClientHello on the wire == Hello.Raw read at the first write, (2) the last edit of each field is visible to the strict parser, (3) after Handshake Hello.Raw == the last ClientHello sent. distinct = (client, edit sequence, server, hellos sent)"
+			c.Rule = "every non-Golang ID, randomized seeds and custom specs (+ fingerprinted copies in thorough) x every sequence of <=2 (3) documented mutators (SetClientRandom, SetSNI, CipherSuites drop/append, SessionId pattern/empty, Extensions append/remove/edit (ALPN, server_name and signature_algorithms objects edited directly), RemoveSNIExtension, an edit the marshaller must refuse, a second BuildHandshakeState) applied between BuildHandshakeState and the start of the handshake {Handshake(), first Read, first Write} x server {plain, HRR-forcing} x {fresh connection, PSK parrot resuming a cached TLS 1.3 session} x (unedited hellos) {no ECH config, Config.EncryptedClientHelloConfigList set whether or not the spec has an ECH extension}: (1) first ClientHello on the wire == Hello.Raw read at the first write, (2) the last edit of each field is visible to the strict parser, (3) after Handshake Hello.Raw == the last ClientHello sent. distinct = (client, edit sequence, server, hellos sent)"
 			c.Assumptions = []string{"Hello.Raw 'as rebuilt at handshake start' is read by the transport's first-write callback on the handshaking goroutine"}
 			runAll(c, c01Scenarios(thorough), 0)
 			c.Gate(c.Total.Counters["hrr_completed"] > 100, "non-vacuity: %d completed HRR handshakes", c.Total.Counters["hrr_completed"])
